@@ -1,10 +1,179 @@
 import HvsrVerif.Drv.Loop
-/-! driver commands of C15 (stateless: one request line in, one answer line out) -/
+import HvsrVerif.Model.Settings
+/-!
+driver commands of C15 (stateless: one request line in, one answer line out)
+
+`settings.hist <ndef> (<name> <val>)* <nops> <op>*` runs a whole history of the aliasing model
+`Model/Settings.lean` on the class table `settingsParams`, starting from the default objects
+given in the header, and answers with the groups whose rendering changed after each operation.
+
+values   `N | T | F | i <int> | f <hex16> | s <str> | L n v* (list) | U n v* (tuple) | A n v* (ndarray) | D n (<key> v)*`
+ops      `C <class> <nargs> (<param> (d | l <val> | v <var>))*`   construct
+         `M <g> <attr> <npath> (i <n> | k <key>)* (i <n> | k <key>) <val>`   in-place write
+         `A <g> <attr> <val>`   assignment of a new object      `V <g> <attr> <var>`  assignment of a caller variable
+         `S <g>` save   `L <g> <file>` load   `R <file>` read_settings_object_from_file
+answer   `ok <conforms> <tableOK> (<status> <ndelta> (<g> <attrDict|-> <typed fields>)*)*`, first block = initial state
+
+`settings.dispatch <n> (<key> <val>)*` → class name chosen by the reader or `none`.
+-/
 namespace HV.Drv
-open HV.Proto
+open HV.Proto HV.Settings
+
+partial def pVal : P Val := do
+  let t ← tok
+  match t with
+  | "N" => pure (.sc .none)
+  | "T" => pure (.sc (.bool true))
+  | "F" => pure (.sc (.bool false))
+  | "i" => do let i ← int; pure (.sc (.int i))
+  | "f" => do
+    let h ← tok
+    match hexToNat h with
+    | some n => pure (.sc (.flt n))
+    | none => throw s!"flt:{h}"
+  | "s" => do let s ← tok; pure (.sc (.str s))
+  | "L" => do let n ← nat; let cs ← rep n pVal; pure (.node 0 .list cs)
+  | "U" => do let n ← nat; let cs ← rep n pVal; pure (.node 0 .tuple cs)
+  | "A" => do let n ← nat; let cs ← rep n pVal; pure (.node 0 .arr cs)
+  | "D" => do
+    let n ← nat
+    let kvs ← rep n (do let k ← tok; let v ← pVal; pure (k, v))
+    pure (.node 0 (.dict (kvs.map (·.1))) (kvs.map (·.2)))
+  | _ => throw s!"val:{t}"
+
+def pStep : P Step := do
+  let t ← tok
+  match t with
+  | "i" => do let n ← nat; pure (.idx n)
+  | "k" => do let k ← tok; pure (.key k)
+  | _ => throw s!"step:{t}"
+
+def pClass : P Class := do
+  let t ← tok
+  match Class.ofName t with
+  | some c => pure c
+  | none => throw s!"class:{t}"
+
+def pSrc : P Src := do
+  let t ← tok
+  match t with
+  | "d" => pure .dflt
+  | "l" => do let v ← pVal; pure (.lit v)
+  | "v" => do let x ← tok; pure (.var x)
+  | _ => throw s!"src:{t}"
+
+def pOp : P Op := do
+  let t ← tok
+  match t with
+  | "C" => do
+    let c ← pClass
+    let n ← nat
+    let args ← rep n (do let p ← tok; let s ← pSrc; pure (p, s))
+    pure (.construct c args)
+  | "M" => do
+    let g ← nat; let a ← tok; let n ← nat
+    let path ← rep n pStep
+    let last ← pStep
+    let v ← pVal
+    pure (.mutate g a path last v)
+  | "A" => do let g ← nat; let a ← tok; let v ← pVal; pure (.assign g a v)
+  | "V" => do let g ← nat; let a ← tok; let x ← tok; pure (.assignVar g a x)
+  | "S" => do let g ← nat; pure (.save g)
+  | "L" => do let g ← nat; let f ← nat; pure (.load g f)
+  | "R" => do let f ← nat; pure (.dispatchLoad f)
+  | _ => throw s!"op:{t}"
+
+def rScalar : Scalar → String
+  | .none => "N"
+  | .bool true => "T"
+  | .bool false => "F"
+  | .int i => "i" ++ toString i
+  | .flt b => "f" ++ natToHex16 b
+  | .str s => "'" ++ s ++ "'"
+
+def rDict (ks : List String) (vs : List String) : String :=
+  "{" ++ ",".intercalate ((ks.zip vs).map fun (k, v) => "'" ++ k ++ "':" ++ v) ++ "}"
+
+partial def rVal : Val → String
+  | .sc s => rScalar s
+  | .node _ .list cs => "[" ++ ",".intercalate (cs.map rVal) ++ "]"
+  | .node _ .tuple cs => "(" ++ ",".intercalate (cs.map rVal) ++ ")"
+  | .node _ .arr cs => "<" ++ ",".intercalate (cs.map rVal) ++ ">"
+  | .node _ (.dict ks) cs => rDict ks (cs.map rVal)
+
+partial def rJson : Json → String
+  | .sc s => rScalar s
+  | .arr xs => "[" ++ ",".intercalate (xs.map rJson) ++ "]"
+  | .obj ks xs => rDict ks (xs.map rJson)
+
+def rFields (fs : List (String × String)) : String :=
+  if fs.isEmpty then "." else ";".intercalate (fs.map fun (k, v) => k ++ "=" ++ v)
+
+/-- typed rendering of a group: objects list `self.attrs` first, then the other instance attributes -/
+def rGroup (t : Table) (g : Group) : String :=
+  match g.cls with
+  | none => "-|" ++ rFields (g.fields.map fun (k, v) => (k, rVal v))
+  | some c =>
+    let names := (t c).map (·.name)
+    let a := names.filterMap fun n => (g.fields.lookup n).map fun v => (n, rVal v)
+    let e := g.fields.filter fun kv => !names.contains kv.1
+    c.name ++ "|" ++ rFields a ++ "|" ++ rFields (e.map fun (k, v) => (k, rVal v))
+
+def rAttrDict (t : Table) (σ : State) (g : Nat) : String :=
+  match attrDict t σ g with
+  | some d => rFields (d.map fun (k, j) => (k, rJson j))
+  | none => "-"
+
+def snapshot (t : Table) (σ : State) : List (String × String) :=
+  (List.range σ.groups.length).map fun g =>
+    (rAttrDict t σ g, match σ.groups[g]? with | some grp => rGroup t grp | none => "?")
+
+def delta (old new : List (String × String)) : String :=
+  let ch := (List.range new.length).filterMap fun g =>
+    match new[g]? with
+    | some x => if old[g]? == some x then none else some s!"{g} {x.1} {x.2}"
+    | none => none
+  " ".intercalate (toString ch.length :: ch)
+
+def mkInit (defs : List (String × Val)) : State :=
+  let r := defs.foldl (fun (acc : List (String × Val) × Nat) (kv : String × Val) =>
+    let w := kv.2.relabel acc.2; (acc.1 ++ [(kv.1, w.1)], w.2)) ([], 0)
+  initState r.1 r.2
+
+def settingsHist : P String := do
+  let nd ← nat
+  let defs ← rep nd (do let k ← tok; let v ← pVal; pure (k, v))
+  let no ← nat
+  let ops ← rep no pOp
+  let t := settingsParams
+  let σ0 := mkInit defs
+  let s0 := snapshot t σ0
+  let mut out : Array String := #["ok", fB (conforms t (σ0.groups.headD default).fields), fB (tableOK t), "ok", delta [] s0]
+  let mut σ := σ0
+  let mut prev := s0
+  for op in ops do
+    match step t σ op with
+    | some σ' =>
+      let s := snapshot t σ'
+      out := out.push "ok" |>.push (delta prev s)
+      σ := σ'
+      prev := s
+    | none => out := out.push "err" |>.push "0"
+  pure (" ".intercalate out.toList)
+
+partial def pJson : P Json := do
+  let v ← pVal
+  pure v.canon
+
+def settingsDispatch : P String := do
+  let n ← nat
+  let kvs ← rep n (do let k ← tok; let v ← pJson; pure (k, v))
+  pure (match dispatch kvs with | some c => c.name | none => "none")
 
 def opsC15 (op : String) : Option (P String) :=
   match op with
+  | "settings.hist" => some settingsHist
+  | "settings.dispatch" => some settingsDispatch
   | _ => none
 
 end HV.Drv
